@@ -1,6 +1,7 @@
 (* C10 - A committed tree reads back exactly; shared nodes live until unreferenced. *)
 From Coq Require Import NArith List Bool.
 From PDB Require Import Model.MultiTree Proofs.MultiTreeProofs Proofs.MultiTreeReadback.
+From PDB Require Model.RcTable Proofs.RcTableProofs Proofs.RcRefines Proofs.MultiTreeForest.
 Import ListNotations.
 Open Scope N_scope.
 
@@ -79,6 +80,121 @@ Proof.
   - cbn [fst snd]. split; [reflexivity|exact E].
 Qed.
 
+(* Counter level. The reference count tables of a multitree column - a current table of 2^bits chunks with 32
+   counters each, outgrown tables waiting in the reindex queue, a counter in the first free slot of the chunk its
+   address hashes to, stale counters left behind in outgrown tables, reindex batches that move, skip and finally
+   drop - answer every lookup (current table first, then the waiting ones, newest first) like the simplest
+   possible account of references: a node that gained a reference has 2, every further one adds 1, every lost
+   one takes 1 away, and the node that is back at one reference has no counter in any table. For every hash
+   function into 64 bits, every first table size and every sequence of references gained and lost, reindex
+   batches and restarts. *)
+Module Counters.
+Import PDB.Model.RcTable PDB.Proofs.RcTableProofs.
+Theorem C10_counter_lookup_is_reference_count :
+  forall (hf : N -> N), (forall a, hf a < 2 ^ 64) ->
+  forall (bits : N) (ops : list rop), Forall (wf_op hf) ops ->
+  forall a, rlookup (fold_left rstep ops (rinit bits)) a (hf a) = fold_left spec_step ops (fun _ => None) a.
+Proof. exact rc_lookup_is_spec. Qed.
+
+(* the account of references the tables are measured against, spelled out *)
+Theorem C10_reference_account :
+  forall sp a b,
+  (spec_step sp (RInc a b) a = Some (match sp a with Some c => c + 1 | None => 2 end)) /\
+  (spec_step sp (RDec a b) a = (match sp a with Some c => (if 2 <? c then Some (c - 1) else None) | None => None end)) /\
+  (forall x, x <> a -> (spec_step sp (RInc a b) x = sp x) /\ (spec_step sp (RDec a b) x = sp x)) /\
+  (spec_step sp RReindex = sp) /\ (spec_step sp RRestart = sp).
+Proof.
+  intros sp a b. cbn [spec_step]. unfold spec_inc, spec_dec. split; [unfold upd; rewrite N.eqb_refl; reflexivity|]. split.
+  - destruct (sp a) as [c|] eqn:E; [unfold upd; rewrite N.eqb_refl; reflexivity|exact E].
+  - split; [|split; reflexivity]. intros x Hx. split.
+    + unfold upd. destruct (N.eqb_spec x a); [contradiction|reflexivity].
+    + destruct (sp a); [|reflexivity]. unfold upd. destruct (N.eqb_spec x a); [contradiction|reflexivity].
+Qed.
+
+(* ... and that account is the count map of the multitree model: what a lookup in the tables gives is what the
+   model's map holds, after every history; the map operations are literally what the model does when a node gains a
+   reference (MIncRef) and when a counted node loses one (deref_children) *)
+Theorem C10_tables_hold_the_models_count_map :
+  forall (hf : N -> N), (forall a, hf a < 2 ^ 64) ->
+  forall (bits : N) (ops : list rop), Forall (wf_op hf) ops ->
+  forall a, rlookup (fold_left rstep ops (rinit bits)) a (hf a) = alook (fold_left PDB.Proofs.RcRefines.nrc_step ops []) a.
+Proof. exact PDB.Proofs.RcRefines.tables_refine_count_map. Qed.
+Theorem C10_count_map_steps_are_the_models :
+  (forall cf fuel s i, nrc (apply_item cf fuel s (MIncRef i)) = PDB.Proofs.RcRefines.nrc_inc (nrc s) i) /\
+  (forall fuel s i c, alook (nrc s) i = Some c -> nrc (deref_children (S (S fuel)) s [i]) = PDB.Proofs.RcRefines.nrc_dec (nrc s) i).
+Proof. split; [exact PDB.Proofs.RcRefines.model_incref_is_nrc_inc|exact PDB.Proofs.RcRefines.model_deref_counted_is_nrc_dec]. Qed.
+
+(* non-vacuity: a first table of two chunks; 33 nodes with odd addresses hash to chunk 1, the 33rd makes the table
+   grow; node 1 gains a second extra reference while its counter is in the outgrown table (a stale counter stays
+   behind), node 3 goes back to one reference (its counter leaves every table), a batch moves the rest and drops the
+   outgrown table *)
+Definition ex_hf (a : N) : N := (a mod 2) * 2 ^ 63 + a.
+Definition ex_rops : list rop :=
+  map (fun i => RInc (2 * N.of_nat i + 1) (ex_hf (2 * N.of_nat i + 1))) (seq 0 33) ++
+  [RInc 1 (ex_hf 1); RDec 3 (ex_hf 3); RInc 4 (ex_hf 4); RReindex; RRestart; RReindex].
+Example C10_counter_history :
+  let st := fold_left rstep ex_rops (rinit 1) in
+  Forall (wf_op ex_hf) ex_rops /\
+  t_bits (rcur st) = 2 /\ rqueue st = [] /\
+  rlookup st 1 (ex_hf 1) = Some 3 /\ rlookup st 3 (ex_hf 3) = None /\ rlookup st 5 (ex_hf 5) = Some 2 /\ rlookup st 4 (ex_hf 4) = Some 2 /\
+  length (rqueue (fold_left rstep (firstn 35 ex_rops) (rinit 1))) = 1%nat /\
+  tfind (hd (rcur st) (rqueue (fold_left rstep (firstn 34 ex_rops) (rinit 1)))) 1 (ex_hf 1) = Some (0%nat, 2).
+Proof.
+  split; [|vm_compute; repeat split; reflexivity].
+  unfold ex_rops. apply Forall_app. split; [apply Forall_forall; intros o Ho; apply in_map_iff in Ho as [i [<- _]]; reflexivity|].
+  repeat (constructor; [reflexivity || exact Logic.I|]). constructor.
+Qed.
+End Counters.
+
+(* The whole forest. Histories of single-operation transactions on a column that is not append-only, each
+   processed before the next one is made (nothing queued, no reader lock held): an inserted tree names existing
+   children that are stored nodes and uses a root key that is free. Then, whatever the trees share:
+   - the count of every stored node is the number of references to it from roots and stored nodes,
+   - every node that can be reached from a live root is stored ("shared nodes live until unreferenced"),
+   - when the last root is gone the column holds no node, no count, no entry at all.
+   Pipelined transactions, several operations per transaction and reader locks are tied to the code by the
+   correspondence (c10) and, for locks, are where known finding F4 lives. *)
+Module Forest.
+Import PDB.Proofs.MultiTreeForest.
+Theorem C10_count_is_number_of_references :
+  forall cf s id, m_append_only cf = false -> forest_run cf s -> In id (map fst (nodes s)) ->
+  N.to_nat (cnt s id) = (count_occ N.eq_dec (kids_r (roots s)) id + count_occ N.eq_dec (kids_n (nodes s)) id)%nat.
+Proof. exact count_is_number_of_references. Qed.
+Theorem C10_reachable_nodes_are_stored :
+  forall cf s id, m_append_only cf = false -> forest_run cf s -> reach s id -> exists n, MultiTree.get_node s id = Some n.
+Proof. exact reachable_nodes_are_stored. Qed.
+Theorem C10_all_dereferenced_is_empty :
+  forall cf s, m_append_only cf = false -> forest_run cf s -> roots s = [] -> nodes s = [] /\ nrc s = [] /\ num_entries s = 0.
+Proof. exact all_dereferenced_is_empty. Qed.
+(* the transaction-level step the three theorems rest on *)
+Theorem C10_forest_invariant_kept :
+  forall cf s op, m_append_only cf = false -> drained s -> FInv s -> forest_ok s op -> drained (tx1 cf s op) /\ FInv (tx1 cf s op).
+Proof. intros cf s op Hao Hd Hf Hok. destruct Hok; [apply tx_insert|apply tx_ref|apply tx_deref]; assumption. Qed.
+
+(* non-vacuity: tree 0 with a subtree; tree 1 shares the subtree (twice) and a leaf; tree 0 is dereferenced - the
+   shared nodes stay, the unshared leaf goes; tree 1 is referenced and dereferenced twice - nothing is left *)
+Definition fx_cf : mcfg := {| m_rc := true; m_append_only := false |}.
+Definition fx_ops : list uop :=
+  [UInsertTree 0 (TNode 10 [TNew (TNode 11 [TNew (TNode 12 []); TNew (TNode 13 [])]); TNew (TNode 14 [])]);
+   UInsertTree 1 (TNode 20 [TExisting 1; TExisting 1; TExisting 3; TNew (TNode 21 [TExisting 2])]);
+   UDerefTree 0; URefTree 1; UDerefTree 1; UDerefTree 1].
+Fixpoint fx_run (ops : list uop) (s : mstate) : mstate := match ops with [] => s | o :: r => fx_run r (tx1 fx_cf s o) end.
+Example C10_forest_history :
+  forest_run fx_cf (fx_run fx_ops minit) /\
+  (let s := fx_run (firstn 3 fx_ops) minit in
+   map fst (nodes s) = [5; 1; 3; 2] /\ cnt s 1 = 2 /\ cnt s 2 = 2 /\ cnt s 3 = 2 /\ alook (nodes s) 4 = None /\ reach s 2) /\
+  nodes (fx_run fx_ops minit) = [] /\ roots (fx_run fx_ops minit) = [].
+Proof.
+  split; [|vm_compute; repeat split; try reflexivity].
+  - unfold fx_ops. cbn [fx_run].
+    repeat (match goal with |- forest_run _ (tx1 _ ?s ?o) => apply (run_step fx_cf s o) end); [apply run_init| | | | | |];
+      try (constructor; fail).
+    + constructor; [vm_compute; reflexivity|intros i Hi; vm_compute in Hi; tauto].
+    + constructor; [vm_compute; reflexivity|]. intros i Hi. vm_compute in Hi. vm_compute. tauto.
+  - eapply reach_node with (p := 1) (n := {| n_data := 11; n_children := [2; 3] |}); [apply reach_root; vm_compute; tauto|vm_compute; reflexivity|left; reflexivity].
+Qed.
+End Forest.
+
 Print Assumptions C10_node_pack_roundtrip.
 Print Assumptions C10_unrepresentable_rejected.
 Print Assumptions C10_insert_reads_back_after_commit.
@@ -86,3 +202,11 @@ Print Assumptions C10_insert_reads_back_after_processing.
 Print Assumptions C10_shared_node_survives_dereference.
 Print Assumptions C10_unshared_leaf_is_reclaimed.
 Print Assumptions C10_invalid_operation_rejects_without_trace.
+Print Assumptions Counters.C10_counter_lookup_is_reference_count.
+Print Assumptions Counters.C10_reference_account.
+Print Assumptions Forest.C10_count_is_number_of_references.
+Print Assumptions Forest.C10_reachable_nodes_are_stored.
+Print Assumptions Forest.C10_all_dereferenced_is_empty.
+Print Assumptions Forest.C10_forest_invariant_kept.
+Print Assumptions Counters.C10_tables_hold_the_models_count_map.
+Print Assumptions Counters.C10_count_map_steps_are_the_models.
